@@ -21,6 +21,7 @@ ASSUMPTIONS = [
     'title/byline rule: the comment text after its first two characters, stripped (what get_title/get_byline document)',
 ]
 EXHAUSTIVE = {'quick': False, 'thorough': False}
+PYOPT_KINDS = (None,)
 KINDS = ('dash', 'slash', 'block', 'block1', 'mblock')
 
 
